@@ -377,3 +377,17 @@ Example C11_helpers_example :
   | Err _ => False
   end.
 Proof. vm_compute. repeat split. Qed.
+
+(* ---- the prepare wrapper's get_args() does not touch the plain arguments ----
+   `src_pr_get_args` is the WHOLE function get_args of /repo's current batchie/cli/prepare_retrospective_simulation.py, re-translated on
+   every run (configuration ARGS_GET_ARGS_PR -> Generated/SrcCliArgs.v; parser.parse_args() is the primitive that yields the raw
+   namespace).  Whatever the class lookups do, the namespace main() receives carries the plain argparse results unchanged - so the
+   float given as --holdout-fraction is the fraction create_plate_balanced_holdout_set_among_masked_plates receives
+   (C03_model_is_source_cli_prepare_retrospective_simulation: the hold-out is taken last, with args.holdout_fraction). *)
+From Batchie Require Model.Cli Proofs.C03SourceArgs Generated.SrcCliArgs.
+Theorem C11_model_is_source_cli_args_holdout_fraction_unchanged :
+  forall (Cls F O : Type) (I : Cli.introspect Cls) (P : Cli.pyprims F O) (raw a : Cli.pr_ns Cls F O),
+  SrcCliArgs.src_pr_get_args Cls F O I P raw = Ok a ->
+  Cli.pr_holdout_fraction (Cli.pr_plain a) = Cli.pr_holdout_fraction (Cli.pr_plain raw).
+Proof. exact C03SourceArgs.src_pr_get_args_holdout. Qed.
+Print Assumptions C11_model_is_source_cli_args_holdout_fraction_unchanged.
